@@ -12,6 +12,14 @@ class PresGen:
         self.pool = list(self.g.items)
         self.groups = []     # dict(id, ftype_rs, members={role: item}, kind)
         self.n = 0
+        # fixed targets: enums whose spelling is a union with `null` in the middle, presented inside Option / Vec
+        self.fixed_targets = []
+        for k, kw in enumerate(({"untagged": True}, {})):
+            cell = Item(f"{prefix}Cell{k}", f"{prefix}Cell{k}", "enum", derives=["TS", "SerdeAttrs"], variants=[
+                Variant("Num", "newtype", [Field(None, prim("i32"))]), Variant("Empty", "unit"), Variant("Text", "newtype", [Field(None, prim("String"))])], **kw)
+            cell.serde = False
+            self.g.items.append(cell)
+            self.fixed_targets.append(cell)
 
     def mk(self, kind, **kw):
         self.n += 1
@@ -24,6 +32,11 @@ class PresGen:
     def ftypes(self):
         r = self.g.r
         out = []
+        for cell in self.fixed_targets:
+            base = Ty("user", item=cell)
+            out.append(("container", Ty("opt", args=[Ty("vec", args=[base])]), cell))
+            out.append(("container", Ty("opt", args=[base]), cell))
+            out.append(("container", Ty("vec", args=[Ty("opt", args=[base])]), cell))
         for it in self.pool:
             if it.recursive:
                 continue
